@@ -771,9 +771,7 @@ def replay_unstructured(inputs):
         for i in range(n):
             if v.get(f"fnan_{m}_{i}") in (True, 1, 1.0):
                 f[m, i] = np.nan
-    be = np.array(sorted(_val(v, f"b_{i}", 0.5 * i + 0.1) for i in range(nb + 1)))
-    if np.any(np.diff(be) <= 0):
-        return True, "precondition (bin edges not increasing)"
+    be = np.array([_val(v, f"b_{i}", 0.5 * i + 0.1) for i in range(nb + 1)])
     ref, rc = _brute_unstructured(f, be, pos, et, dist)
     I = kernel.load(PYX["estimator"], concrete=True)
     sv, sc = I.call("unstructured", [A(f), A(be), A(pos), et, dist, None])
@@ -845,9 +843,7 @@ def replay_directional(inputs):
     for i in range(n):
         if v.get(f"fnan_0_{i}") in (True, 1, 1.0):
             f[0, i] = np.nan
-    be = np.array(sorted(_val(v, f"b_{i}", 0.5 * i + 0.1) for i in range(nb + 1)))
-    if np.any(np.diff(be) <= 0):
-        return True, "precondition"
+    be = np.array([_val(v, f"b_{i}", 0.5 * i + 0.1) for i in range(nb + 1)])
     dirs = np.array([[_val(v, f"u_{d}_{e}", 1.0 if d == e else 0.0) for e in range(dim)] for d in range(nd)])
     tol = _val(v, "tol", 0.5)
     bw = _val(v, "band", 1.0) if bwf else -1.0
